@@ -239,6 +239,13 @@ def _cases_core(rng, tier):
         if rng.random() < 0.1 and vs:
             vs[rng.randrange(len(vs))] = 1 << f
         yield "convertbits %s %d %d %s" % (impl.lst(str, vs), f, t, rng.choice("01")), "convertbits"
+    # a valid address with one line terminator / blank / control / invisible character in front of it or behind it
+    for hrp_, ver_, ln_ in (("bc", 0, 20), ("tb", 0, 32), ("bc", 1, 32), ("bcrt", 16, 2)):
+        good = indep_encode(hrp_, ver_, rb(ln_))
+        for bad in common.edge_variants(good):
+            yield "b32_dec %s %s" % (sx(hrp_), sx(bad)), "edge-character"
+            yield "b32_raw " + sx(bad), "edge-character-raw"
+        yield "b32_dec %s %s" % (sx(hrp_ + "\n"), sx(good)), "edge-character-hrp"
     long_ = indep_encode("x" * 40, 1, rb(26))
     yield "b32_dec %s %s" % (sx("x" * 40), sx(long_)), "dec-len-%d" % len(long_)
     long_ = indep_encode("x" * 41, 1, rb(26))
